@@ -56,26 +56,6 @@ Lemma firstn_le_length {X} (l a : list X) n : firstn n l = a -> length a = n -> 
 Proof. intros <- H. rewrite firstn_length in H. lia. Qed.
 
 (* ---- the directory invariant -------------------------------------------------------------------------------------- *)
-Definition dgood (f : dtrial) : Prop :=
-  (waiting (d_status f) \/ final (d_status f)) /\ (d_status f = COMPLETED -> exists x, d_score f = Some (SVal x)).
-
-Record JOK (files : list dtrial) (j : ojson) : Prop := {
-  J_start : j_start j = seq 0 (length files);
-  J_nd_rq : NoDup (j_retryq j);
-  J_nd_eo : NoDup (j_end j);
-  J_nd_on : NoDup (map snd (j_ongoing j));
-  J_rq_eo : forall x, In x (j_retryq j) -> ~ In x (j_end j);
-  J_rq : forall x, In x (j_retryq j) -> exists f, nth_error files x = Some f /\ waiting (d_status f);
-  J_eo : forall x, In x (j_end j) -> exists f, nth_error files x = Some f /\ final (d_status f);
-  (* every trial that was started and whose file does not record an end is queued or recorded as handed out *)
-  J_cover : forall x f, nth_error files x = Some f -> final (d_status f) \/ In x (j_retryq j) \/ In x (map snd (j_ongoing j));
-  J_good : forall x f, nth_error files x = Some f -> dgood f
-}.
-
-Definition DirOK (d : dstate) : Prop :=
-  ds_tuner d = true /\ exists j, ds_oracle d = Some j /\ length (j_start j) <= length (ds_trials d) /\
-                                 JOK (firstn (length (j_start j)) (ds_trials d)) j.
-
 Lemma dfinal_final (f : dtrial) : dfinal f = true <-> final (d_status f).
 Proof. unfold dfinal, final. destruct (d_status f); split; intros H; try discriminate; auto; destruct H; discriminate. Qed.
 
@@ -94,6 +74,29 @@ Proof.
       apply existsb_exists in E as (y & Hy & Hxy). apply Nat.eqb_eq in Hxy. subst. contradiction.
 Qed.
 
+Definition dgood (f : dtrial) : Prop :=
+  (waiting (d_status f) \/ final (d_status f)) /\ (d_status f = COMPLETED -> exists x, d_score f = Some (SVal x)).
+
+Record JOK (R : nat) (files : list dtrial) (j : ojson) : Prop := {
+  J_start : j_start j = seq 0 (length files);
+  J_nd_rq : NoDup (j_retryq j);
+  J_nd_eo : NoDup (j_end j);
+  J_nd_on : NoDup (map snd (j_ongoing j));
+  J_rq_eo : forall x, In x (j_retryq j) -> ~ In x (j_end j);
+  J_rq : forall x, In x (j_retryq j) -> exists f, nth_error files x = Some f /\ waiting (d_status f);
+  J_eo : forall x, In x (j_end j) -> exists f, nth_error files x = Some f /\ final (d_status f);
+  (* every trial that was started and whose file does not record an end is queued or recorded as handed out *)
+  J_cover : forall x f, nth_error files x = Some f -> final (d_status f) \/ In x (j_retryq j) \/ In x (map snd (j_ongoing j));
+  J_good : forall x f, nth_error files x = Some f -> dgood f;
+  (* run counters: at most R+1 runs per trial, at most R for a trial that will be run again *)
+  J_runs : forall x, nth x (j_runs j) 0 <= S R;
+  J_live : forall x, In x (j_retryq j) \/ In x (requeued files j) -> nth x (j_runs j) 0 <= R
+}.
+
+Definition DirOK (R : nat) (d : dstate) : Prop :=
+  ds_tuner d = true /\ exists j, ds_oracle d = Some j /\ length (j_start j) <= length (ds_trials d) /\
+                                 JOK R (firstn (length (j_start j)) (ds_trials d)) j.
+
 Lemma NoDup_filter {X} (p : X -> bool) l : NoDup l -> NoDup (filter p l).
 Proof.
   induction l as [|x r IH]; simpl; intros H; [constructor|]. inversion H; subst.
@@ -107,11 +110,11 @@ Proof.
 Qed.
 
 (* THE RESTART FROM ANY DIRECTORY SATISFYING DirOK YIELDS A STATE SATISFYING THE LIFECYCLE INVARIANT *)
-Theorem recover_inv (d : dstate) : DirOK d -> exists t : ost, recoverf d = Some t /\ Inv t /\ ongoing t = [].
+Theorem recover_inv c (d : dstate) : DirOK (max_retries c) d -> exists t : ost, recoverf d = Some t /\ Inv t /\ RInv c t /\ ongoing t = [].
 Proof.
   intros (Ht & j & Ho & Hlen & HJ). unfold recover. rewrite Ht, Ho. cbn [negb].
   set (files := firstn (length (j_start j)) (ds_trials d)) in *.
-  eexists. split; [reflexivity|]. split; [|reflexivity].
+  eexists. split; [reflexivity|].
   set (mk := fun (i : nat) (dt : dtrial) => {| t_status := d_status dt; t_score := d_score dt; t_runs := nth i (j_runs j) 0; t_data := d_data dt |}).
   assert (Hnth : forall x, nth_error (mapi mk 0 files) x = option_map (mk x) (nth_error files x)).
   { intros x. rewrite mapi_nth. reflexivity. }
@@ -120,35 +123,39 @@ Proof.
   assert (Hstat : forall x f, nth_error files x = Some f -> forall (t : ost), trials t = mapi mk 0 files -> stat t x = Some (d_status f)).
   { intros x f Hf t Et. now apply Hstat0. }
   assert (Hrqw : forall x, In x (j_retryq j ++ requeued files j) -> exists f, nth_error files x = Some f /\ waiting (d_status f)).
-  { intros x Hx. apply in_app_or in Hx as [Hx|Hx]; [now apply (J_rq _ _ HJ)|].
+  { intros x Hx. apply in_app_or in Hx as [Hx|Hx]; [now apply (J_rq _ _ _ HJ)|].
     apply requeued_in in Hx as (_ & f & Hf & Hnf & _). exists f. split; [exact Hf|].
-    destruct (J_good _ _ HJ x f Hf) as [[Hw|Hfin] _]; [exact Hw|contradiction]. }
+    destruct (J_good _ _ _ HJ x f Hf) as [[Hw|Hfin] _]; [exact Hw|contradiction]. }
+  split; [|split; [constructor; cbn [trials ongoing retryq]|reflexivity]].
+  2:{ intros x t Hn. rewrite Hnth in Hn. destruct (nth_error files x) as [f|]; [|discriminate]. inversion Hn; subst t. cbn. apply (J_runs _ _ _ HJ). }
+  2:{ intros x t Hn [[]|Hx]. rewrite Hnth in Hn. destruct (nth_error files x) as [f|]; [|discriminate]. inversion Hn; subst t. cbn.
+      apply (J_live _ _ _ HJ). apply in_app_or in Hx. exact Hx. }
   constructor; cbn [trials ongoing start_order end_order retryq disk].
-  - rewrite mapi_length. apply (J_start _ _ HJ).
+  - rewrite mapi_length. apply (J_start _ _ _ HJ).
   - now rewrite mapi_length.
   - constructor.
   - unfold onids. cbn [ongoing map]. unfold part3. repeat split; try constructor; try (intros ? []).
-    + apply NoDup_app_disj; [apply (J_nd_rq _ _ HJ)|apply NoDup_filter, (J_nd_on _ _ HJ)|].
+    + apply NoDup_app_disj; [apply (J_nd_rq _ _ _ HJ)|apply NoDup_filter, (J_nd_on _ _ _ HJ)|].
       intros x Hx Hr. apply requeued_in in Hr as (_ & f & _ & _ & Hn). contradiction.
-    + apply (J_nd_eo _ _ HJ).
-    + intros x Hx He. apply in_app_or in Hx as [Hx|Hx]; [now apply (J_rq_eo _ _ HJ x)|].
-      apply requeued_in in Hx as (_ & f & Hf & Hnf & _). destruct (J_eo _ _ HJ x He) as (f' & Hf' & Hfin).
+    + apply (J_nd_eo _ _ _ HJ).
+    + intros x Hx He. apply in_app_or in Hx as [Hx|Hx]; [now apply (J_rq_eo _ _ _ HJ x)|].
+      apply requeued_in in Hx as (_ & f & Hf & Hnf & _). destruct (J_eo _ _ _ HJ x He) as (f' & Hf' & Hfin).
       rewrite Hf in Hf'. inversion Hf'; subst. contradiction.
   - intros x [].
   - intros x Hx. destruct (Hrqw x Hx) as (f & Hf & Hw). exists (d_status f). split; [now apply (Hstat _ _ Hf)|exact Hw].
-  - intros x Hx. destruct (J_eo _ _ HJ x Hx) as (f & Hf & Hfin). exists (d_status f). split; [now apply (Hstat _ _ Hf)|exact Hfin].
+  - intros x Hx. destruct (J_eo _ _ _ HJ x Hx) as (f & Hf & Hfin). exists (d_status f). split; [now apply (Hstat _ _ Hf)|exact Hfin].
   - intros x Hx. rewrite mapi_length in Hx. unfold onids. cbn [ongoing map].
     destruct (nth_error files x) as [f|] eqn:Hf; [|apply nth_error_None in Hf; lia].
-    destruct (J_cover _ _ HJ x f Hf) as [Hfin|[Hq|Hon]].
+    destruct (J_cover _ _ _ HJ x f Hf) as [Hfin|[Hq|Hon]].
     + right. right. exists (d_status f). split; [now apply (Hstat _ _ Hf)|exact Hfin].
     + right. left. apply in_or_app. now left.
-    + destruct (J_good _ _ HJ x f Hf) as [[Hw|Hfin] _].
+    + destruct (J_good _ _ _ HJ x f Hf) as [[Hw|Hfin] _].
       * right. left. destruct (in_dec Nat.eq_dec x (j_retryq j)) as [Hq|Hnq]; [apply in_or_app; now left|].
         apply in_or_app. right. apply requeued_in. split; [exact Hon|]. exists f. split; [exact Hf|]. split; [|exact Hnq].
         intros Hfin. eapply waiting_not_final; eauto.
       * right. right. exists (d_status f). split; [now apply (Hstat _ _ Hf)|exact Hfin].
   - intros x t Hn Hc. rewrite Hnth in Hn. destruct (nth_error files x) as [f|] eqn:Hf; [|discriminate]. inversion Hn; subst t. cbn in Hc |- *.
-    apply (J_good _ _ HJ x f Hf). exact Hc.
+    apply (J_good _ _ _ HJ x f Hf). exact Hc.
   - intros x _. rewrite Hnth. destruct (nth_error files x) as [f|]; [|reflexivity]. cbn. destruct f; reflexivity.
   - intros x f [[]|Hx] Hf. destruct (Hrqw x Hx) as (f' & Hf' & Hw). rewrite Hf in Hf'. inversion Hf'; subst. exact Hw.
 Qed.
@@ -157,7 +164,8 @@ Qed.
 (* oracle.json is a save of s except that it lists og as handed out and may hold an older algorithm state (create_trial
    does not save when it answers IDLE or STOPPED); trial files beyond the known trials are leftovers *)
 Definition jrep (j : ojson) (s : ost) (og : list (tuner * tid)) : Prop :=
-  j_ongoing j = og /\ j_start j = start_order s /\ j_end j = end_order s /\ j_retryq j = retryq s.
+  j_ongoing j = og /\ j_start j = start_order s /\ j_end j = end_order s /\ j_retryq j = retryq s /\
+  j_runs j = map (@t_runs V Sc) (trials s).
 Definition RepO (d : dstate) (s : ost) (og : list (tuner * tid)) : Prop :=
   ds_tuner d = true /\ (exists j, ds_oracle d = Some j /\ jrep j s og) /\
   firstn (length (trials s)) (ds_trials d) = disk s.
@@ -177,10 +185,14 @@ Proof.
   exists f. split; [reflexivity|]. eapply (I_d_wait _ HI); eauto.
 Qed.
 
-Lemma jok_of_inv (s : ost) (j : ojson) og : Inv s -> jrep j s og -> NoDup (map snd og) ->
-  (forall x, In x (onids s) -> In x (map snd og)) -> JOK (disk s) j.
+Lemma nth_map_runs (ts : list trial) x : nth x (map (@t_runs V Sc) ts) 0 = match nth_error ts x with Some t => t_runs t | None => 0 end.
+Proof. revert x. induction ts as [|t r IH]; intros [|x]; simpl; auto. Qed.
+
+Lemma jok_of_inv c (s : ost) (j : ojson) og : Inv s -> RInv c s -> jrep j s og -> NoDup (map snd og) ->
+  (forall x, In x (onids s) -> In x (map snd og)) ->
+  (forall x, In x (map snd og) -> In x (onids s) \/ In x (retryq s) \/ finalat s x) -> JOK (max_retries c) (disk s) j.
 Proof.
-  intros HI (Eo & Es & Ee & Eq) Hnd Hsub.
+  intros HI HR (Eo & Es & Ee & Eq & Er) Hnd Hsub Hsup.
   destruct (I_part _ HI) as (Ha & Hb & Hc & Hab & Hac & Hbc).
   assert (Hcase : forall x f, nth_error (disk s) x = Some f ->
             (In x (onids s) \/ In x (retryq s)) /\ waiting (d_status f) \/ finalat s x /\ final (d_status f)).
@@ -203,44 +215,54 @@ Proof.
     + intros Hcm. destruct (Hcase x f Hf) as [[_ [H|H]]|[H _]]; try congruence.
       pose proof (I_d_fin _ HI _ H) as Hd. destruct (nth_error (trials s) x) as [t|] eqn:Et; simpl in Hd; [|congruence].
       rewrite Hf in Hd. inversion Hd; subst f. simpl in *. eapply (I_score _ HI); eauto.
+  - intros x. rewrite Er, nth_map_runs. destruct (nth_error (trials s) x) as [t|] eqn:Et; [|lia]. eapply (R_all _ _ HR); eauto.
+  - intros x Hx. rewrite Er, nth_map_runs. destruct (nth_error (trials s) x) as [t|] eqn:Et; [|lia].
+    apply (R_live _ _ HR x t Et). destruct Hx as [Hx|Hx]; [right; now rewrite <- Eq|].
+    apply requeued_in in Hx as (Hin & f & Hf & Hnf & Hnq). rewrite Eo in Hin. destruct (Hsup x Hin) as [H|[H|H]]; auto.
+    exfalso. destruct (disk_final_of_finalat s x HI H) as (f' & Hf' & Hfin). rewrite Hf in Hf'. inversion Hf'; subst. contradiction.
 Qed.
 
-Lemma repo_dirok (d : dstate) (s : ost) og : Inv s -> RepO d s og -> NoDup (map snd og) ->
-  (forall x, In x (onids s) -> In x (map snd og)) -> DirOK d.
+Lemma repo_dirok c (d : dstate) (s : ost) og : Inv s -> RInv c s -> RepO d s og -> NoDup (map snd og) ->
+  (forall x, In x (onids s) -> In x (map snd og)) ->
+  (forall x, In x (map snd og) -> In x (onids s) \/ In x (retryq s) \/ finalat s x) -> DirOK (max_retries c) d.
 Proof.
-  intros HI (Ht & (j & Ho & Hj) & Hf) Hnd Hsub. split; [exact Ht|]. exists j. split; [exact Ho|].
+  intros HI HR (Ht & (j & Ho & Hj) & Hf) Hnd Hsub Hsup. split; [exact Ht|]. exists j. split; [exact Ho|].
   assert (Hn : length (j_start j) = length (trials s)).
   { destruct Hj as (_ & Es & _). rewrite Es, (I_start _ HI). apply seq_length. }
   rewrite Hn. split.
   - eapply firstn_le_length; [exact Hf|apply (I_disk_len _ HI)].
   - rewrite Hf. eapply jok_of_inv; eauto.
 Qed.
-Lemma rep_dirok (d : dstate) (s : ost) : Inv s -> Rep d s -> DirOK d.
-Proof. intros HI HR. eapply repo_dirok; eauto. apply (I_part _ HI). Qed.
+Lemma rep_dirok c (d : dstate) (s : ost) : Inv s -> RInv c s -> Rep d s -> DirOK (max_retries c) d.
+Proof. intros HI HR HRep. apply (repo_dirok c d s (ongoing s) HI HR HRep); [apply (I_part _ HI)|intros x H; exact H|intros x H; left; exact H]. Qed.
 
 (* the trial file of a handed-out trial is rewritten while oracle.json still describes the state before *)
-Lemma jok_patch (files : list dtrial) (j : ojson) id (d' : dtrial) :
-  JOK files j -> In id (map snd (j_ongoing j)) -> ~ In id (j_retryq j) -> ~ In id (j_end j) -> id < length files -> dgood d' ->
-  JOK (set_nth id d' files) j.
+Lemma jok_patch R (files : list dtrial) (j : ojson) id (d' : dtrial) :
+  JOK R files j -> In id (map snd (j_ongoing j)) -> ~ In id (j_retryq j) -> ~ In id (j_end j) -> id < length files -> dgood d' ->
+  nth id (j_runs j) 0 <= R -> JOK R (set_nth id d' files) j.
 Proof.
-  intros HJ Hon Hnq Hne Hlt Hg.
+  intros HJ Hon Hnq Hne Hlt Hg Hrun.
   assert (Hlen : length (set_nth id d' files) = length files) by now apply set_nth_length_lt.
   assert (Hoth : forall x, x <> id -> nth_error (set_nth id d' files) x = nth_error files x).
   { intros x Hx. apply set_nth_other; [lia|exact Hx]. }
   assert (Hsame : nth_error (set_nth id d' files) id = Some d') by (apply set_nth_same; lia).
   constructor; try apply HJ.
-  - rewrite Hlen. apply (J_start _ _ HJ).
-  - intros x Hx. rewrite Hoth; [now apply (J_rq _ _ HJ)|]. intros ->. contradiction.
-  - intros x Hx. rewrite Hoth; [now apply (J_eo _ _ HJ)|]. intros ->. contradiction.
-  - intros x f Hf. destruct (Nat.eq_dec x id) as [->|Hx]; [auto|]. rewrite Hoth in Hf by exact Hx. now apply (J_cover _ _ HJ x f).
+  - rewrite Hlen. apply (J_start _ _ _ HJ).
+  - intros x Hx. rewrite Hoth; [now apply (J_rq _ _ _ HJ)|]. intros ->. contradiction.
+  - intros x Hx. rewrite Hoth; [now apply (J_eo _ _ _ HJ)|]. intros ->. contradiction.
+  - intros x f Hf. destruct (Nat.eq_dec x id) as [->|Hx]; [auto|]. rewrite Hoth in Hf by exact Hx. now apply (J_cover _ _ _ HJ x f).
   - intros x f Hf. destruct (Nat.eq_dec x id) as [->|Hx]; [rewrite Hsame in Hf; now inversion Hf; subst|].
-    rewrite Hoth in Hf by exact Hx. now apply (J_good _ _ HJ x f).
+    rewrite Hoth in Hf by exact Hx. now apply (J_good _ _ _ HJ x f).
+  - intros x [Hx|Hx]; [apply (J_live _ _ _ HJ); now left|].
+    destruct (Nat.eq_dec x id) as [->|Hxne]; [exact Hrun|].
+    apply (J_live _ _ _ HJ). right. apply requeued_in in Hx as (Hin & f & Hf & Hr). apply requeued_in. split; [exact Hin|].
+    exists f. rewrite Hoth in Hf by exact Hxne. auto.
 Qed.
 
-Lemma w1_dirok (d : dstate) (s : ost) id (d' : dtrial) : Inv s -> Rep d s -> In id (onids s) -> dgood d' ->
-  DirOK (apply_write d (WTrial id d')).
+Lemma w1_dirok c (d : dstate) (s : ost) id (d' : dtrial) : Inv s -> RInv c s -> Rep d s -> In id (onids s) -> dgood d' ->
+  DirOK (max_retries c) (apply_write d (WTrial id d')).
 Proof.
-  intros HI HR Hon Hg. pose proof HR as (Ht & (j & Ho & Hj) & Hf).
+  intros HI HRI HR Hon Hg. pose proof HR as (Ht & (j & Ho & Hj) & Hf).
   destruct (on_facts _ _ HI Hon) as (Hlt & Hnq & Hne).
   assert (Hn : length (j_start j) = length (trials s)).
   { destruct Hj as (_ & Es & _). rewrite Es, (I_start _ HI). apply seq_length. }
@@ -248,13 +270,14 @@ Proof.
   split; [exact Ht|]. exists j. split; [exact Ho|]. cbn [apply_write ds_trials]. rewrite Hn. split.
   - rewrite set_nth_length_lt; lia.
   - rewrite firstn_set_nth_lt by lia. rewrite Hf.
-    pose proof Hj as (Eo & Es & Ee & Eq).
+    pose proof Hj as (Eo & Es & Ee & Eq & Er).
     apply jok_patch; auto.
-    + eapply jok_of_inv; eauto. apply (I_part _ HI).
+    + apply (jok_of_inv c s j (ongoing s) HI HRI Hj); [apply (I_part _ HI)|intros x H; exact H|intros x H; left; exact H].
     + now rewrite Eo.
     + now rewrite Eq.
     + now rewrite Ee.
     + now rewrite (I_disk_len _ HI).
+    + rewrite Er, nth_map_runs. destruct (nth_error (trials s) id) as [t|] eqn:Et; [|lia]. apply (R_live _ _ HRI id t Et). now left.
 Qed.
 
 (* ---- the writes of one call, prefix by prefix --------------------------------------------------------------------- *)
@@ -267,14 +290,15 @@ Proof.
   intros (Ht & (j & Ho & Hj) & Hf) E1 E2 E3 E4 E5 E6. unfold Rep, RepO, jrep in *. rewrite E1, E2, E3, E4, E5, E6. eauto.
 Qed.
 
-Lemma end_block (d : dstate) (s s' : ost) id (dt : dtrial) :
-  Inv s -> Rep d s -> In id (onids s) -> Inv s' ->
+Lemma end_block c (d : dstate) (s s' : ost) id (dt : dtrial) :
+  Inv s -> RInv c s -> Rep d s -> In id (onids s) -> Inv s' -> RInv c s' ->
   length (trials s') = length (trials s) -> disk s' = upd id (fun _ => dt) (disk s) ->
-  (forall x, In x (onids s') -> In x (onids s)) -> dgood dt ->
+  (forall x, In x (onids s') -> In x (onids s)) ->
+  (forall x, In x (onids s) -> In x (onids s') \/ In x (retryq s') \/ finalat s' x) -> dgood dt ->
   let B := [WTrial id dt; WOracle (to_json (with_ongoing s' (ongoing s))); WOracle (to_json s'); WTuner] in
-  (forall k, DirOK (foldw (firstn k B) d)) /\ Rep (foldw B d) s'.
+  (forall k, DirOK (max_retries c) (foldw (firstn k B) d)) /\ Rep (foldw B d) s'.
 Proof.
-  intros HI HR Hon HI' Hlen Hdisk Hsub Hg B.
+  intros HI HRI HR Hon HI' HRI' Hlen Hdisk Hsub Hsup Hg B.
   pose proof HR as (Ht & (j & Ho & Hj) & Hf).
   destruct (on_facts _ _ HI Hon) as (Hlt & _ & _).
   assert (Hle : length (trials s) <= length (ds_trials d)) by (eapply firstn_le_length; [exact Hf|apply (I_disk_len _ HI)]).
@@ -288,11 +312,11 @@ Proof.
   { cbn. split; [reflexivity|]. split; [|exact Hfiles]. eexists. split; [reflexivity|]. repeat split. }
   split; [|exact H4].
   intros [|[|[|[|k]]]].
-  - cbn. now apply (rep_dirok d s).
-  - cbn [firstn foldw B]. now apply (w1_dirok d s).
-  - eapply repo_dirok; [exact HI'|exact H2|apply (I_part _ HI)|exact Hsub].
-  - now apply (rep_dirok _ s').
-  - rewrite firstn_all2 by (unfold B; cbn [length]; lia). now apply (rep_dirok _ s').
+  - cbn. now apply (rep_dirok c d s).
+  - cbn [firstn foldw B]. now apply (w1_dirok c d s).
+  - eapply repo_dirok; [exact HI'|exact HRI'|exact H2|apply (I_part _ HI)|exact Hsub|exact Hsup].
+  - now apply (rep_dirok c _ s').
+  - rewrite firstn_all2 by (unfold B; cbn [length]; lia). now apply (rep_dirok c _ s').
 Qed.
 
 Lemma firstn_firstn_min {X} (l : list X) k m : firstn k (firstn m l) = firstn (Nat.min k m) l.
@@ -300,16 +324,21 @@ Proof. apply firstn_firstn. Qed.
 
 Definition is_reload (o : @op V) : bool := match o with Reload => true | _ => false end.
 
-Lemma block_spec c (d : dstate) (s s' : ost) o r : abort_early c = false -> Inv s -> Rep d s ->
+Lemma map_runs_upd (ts : list trial) id (t t' : trial) : nth_error ts id = Some t -> t_runs t' = t_runs t ->
+  map (@t_runs V Sc) (upd id (fun _ => t') ts) = map (@t_runs V Sc) ts.
+Proof. revert id. induction ts as [|x r IH]; intros [|id] Hn H; simpl in *; try discriminate; [inversion Hn; subst; now rewrite H|now rewrite (IH id Hn H)]. Qed.
+
+Lemma block_spec c (d : dstate) (s s' : ost) o r : abort_early c = false -> Inv s -> RInv c s -> Rep d s ->
   stepf c s o = (s', r) -> is_reload o = false ->
-  (forall k, DirOK (foldw (firstn k (writes_of s o s' r)) d)) /\
+  (forall k, DirOK (max_retries c) (foldw (firstn k (writes_of s o s' r)) d)) /\
   (r <> RAbort -> Rep (foldw (writes_of s o s' r) d) s').
 Proof.
-  intros Hab HI HR Es Hnr.
+  intros Hab HI HRI HR Es Hnr.
+  pose proof (rinv_step vdef score_fn populate hook_end hook_end_abort hook_reload reissue c s o Hab HI HRI) as HRI'. rewrite Es in HRI'. cbn [fst] in HRI'.
   pose proof HR as (Ht & (j & Ho & Hj) & Hf).
   assert (Hle : length (trials s) <= length (ds_trials d)) by (eapply firstn_le_length; [exact Hf|apply (I_disk_len _ HI)]).
-  assert (Hnil : (forall k, DirOK (foldw (firstn k []) d)) /\ (r <> RAbort -> Rep (foldw [] d) s) ).
-  { split; [intros k; rewrite firstn_nil; cbn; now apply (rep_dirok d s)|intros _; exact HR]. }
+  assert (Hnil : (forall k, DirOK (max_retries c) (foldw (firstn k []) d)) /\ (r <> RAbort -> Rep (foldw [] d) s) ).
+  { split; [intros k; rewrite firstn_nil; cbn; now apply (rep_dirok c d s)|intros _; exact HR]. }
   destruct o as [tu|id f|id es f|]; [| | |discriminate]; cbn [stepf] in Es.
   - (* create_trial *)
     pose proof (inv_create vdef populate reissue c s tu HI) as HI'.
@@ -322,10 +351,10 @@ Proof.
       assert (Hsame : forall (s1 : ost) st1 id1 v1, st1 <> RUNNING ->
                 ongoing s1 = ongoing s -> start_order s1 = start_order s -> end_order s1 = end_order s -> retryq s1 = retryq s ->
                 trials s1 = trials s -> disk s1 = disk s ->
-                (forall k, DirOK (foldw (firstn k (writes_of s (Create tu) s1 (RTrial id1 st1 v1))) d)) /\
+                (forall k, DirOK (max_retries c) (foldw (firstn k (writes_of s (Create tu) s1 (RTrial id1 st1 v1))) d)) /\
                 (RTrial id1 st1 v1 <> RAbort -> Rep (foldw (writes_of s (Create tu) s1 (RTrial id1 st1 v1)) d) s1)).
       { intros s1 st1 id1 v1 Hst E1 E2 E3 E4 E5 E6. cbn [writes_of]. destruct st1; try congruence.
-        all: split; [intros k; rewrite firstn_nil; cbn; now apply (rep_dirok d s)|intros _; cbn; now apply (rep_same_lists d s)]. }
+        all: split; [intros k; rewrite firstn_nil; cbn; now apply (rep_dirok c d s)|intros _; cbn; now apply (rep_same_lists d s)]. }
       destruct st; cbn [fst] in *; inversion Es; subst s' r; try (apply Hsame; [discriminate|reflexivity..]).
       (* a new trial *)
       set (t := {| t_status := RUNNING; t_score := None; t_runs := 0; t_data := v |}) in *.
@@ -335,7 +364,7 @@ Proof.
       assert (Hd : nth_error (disk s ++ [to_disk t]) n = Some (to_disk t)).
       { rewrite nth_error_app2 by (rewrite (I_disk_len _ HI); unfold n; lia). now rewrite (I_disk_len _ HI), Nat.sub_diag. }
       rewrite Hd.
-      match goal with |- (forall k, DirOK (foldw (firstn k [_; WOracle (to_json ?S')]) d)) /\ _ => set (s2 := S') in * end.
+      match goal with |- (forall k, DirOK _ (foldw (firstn k [_; WOracle (to_json ?S')]) d)) /\ _ => set (s2 := S') in * end.
       assert (H1 : Rep (apply_write d (WTrial n (to_disk t))) s).
       { split; [exact Ht|]. split; [exists j; auto|]. cbn [apply_write ds_trials]. rewrite firstn_set_nth_ge by (unfold n; lia). exact Hf. }
       assert (H2 : Rep (foldw [WTrial n (to_disk t); WOracle (to_json s2)] d) s2).
@@ -344,19 +373,19 @@ Proof.
         rewrite firstn_S_set_nth by (unfold n; lia). now rewrite Hf. }
       split; [|intros _; exact H2].
       intros [|[|k]].
-      * cbn. now apply (rep_dirok d s).
-      * cbn. now apply (rep_dirok _ s).
-      * rewrite firstn_all2 by (cbn [length]; lia). now apply (rep_dirok _ s2).
+      * cbn. now apply (rep_dirok c d s).
+      * cbn. now apply (rep_dirok c _ s).
+      * rewrite firstn_all2 by (cbn [length]; lia). now apply (rep_dirok c _ s2).
     + (* re-issued from the retry queue *)
       cbn [fst] in HI'. inversion Es; subst s' r. cbn [writes_of trials ongoing].
       rewrite length_upd, Nat.ltb_irrefl, app_length. cbn [length].
       replace (length (ongoing s) =? length (ongoing s) + 1) with false by (symmetry; apply Nat.eqb_neq; lia).
-      match goal with |- (forall k, DirOK (foldw (firstn k [WOracle (to_json ?S')]) d)) /\ _ => set (s2 := S') in * end.
+      match goal with |- (forall k, DirOK _ (foldw (firstn k [WOracle (to_json ?S')]) d)) /\ _ => set (s2 := S') in * end.
       assert (H1 : Rep (foldw [WOracle (to_json s2)] d) s2).
       { cbn. split; [exact Ht|]. split; [eexists; split; [reflexivity|repeat split]|]. unfold s2. cbn [trials disk ds_trials]. rewrite length_upd. exact Hf. }
       split; [|intros _; exact H1].
-      intros [|k]; [cbn; now apply (rep_dirok d s)|].
-      rewrite firstn_all2 by (cbn [length]; lia). now apply (rep_dirok _ s2).
+      intros [|k]; [cbn; now apply (rep_dirok c d s)|].
+      rewrite firstn_all2 by (cbn [length]; lia). now apply (rep_dirok c _ s2).
   - (* update_trial *)
     pose proof (inv_update s id f HI) as HI'. unfold do_update in Es, HI'.
     destruct (nth_error (trials s) id) as [t|] eqn:Et.
@@ -365,12 +394,15 @@ Proof.
     assert (Hlt : id < length (trials s)) by (apply nth_error_Some; congruence).
     assert (Hlt' : id < length (disk s)) by now rewrite (I_disk_len _ HI).
     rewrite nth_upd_same. destruct (nth_error (disk s) id) as [d0|] eqn:Ed0; [|apply nth_error_None in Ed0; lia]. cbn [option_map].
-    match goal with |- (forall k, DirOK (foldw (firstn k [WTrial id ?DT]) d)) /\ (_ -> Rep _ ?S') => set (dt := DT) in *; set (s2 := S') in * end.
+    match goal with |- (forall k, DirOK _ (foldw (firstn k [WTrial id ?DT]) d)) /\ (_ -> Rep _ ?S') => set (dt := DT) in *; set (s2 := S') in * end.
     assert (H1 : Rep (foldw [WTrial id dt] d) s2).
-    { cbn. split; [exact Ht|]. split; [exists j; auto|]. unfold s2. cbn [trials disk ds_trials]. rewrite length_upd, firstn_set_nth_lt by lia. rewrite Hf. now apply set_nth_upd. }
+    { cbn. split; [exact Ht|]. split.
+      - exists j. split; [exact Ho|]. destruct Hj as (E1 & E2 & E3 & E4 & E5). unfold s2. repeat split; auto. cbn [trials].
+        rewrite (map_runs_upd _ _ t); [exact E5|exact Et|reflexivity].
+      - unfold s2. cbn [trials disk ds_trials]. rewrite length_upd, firstn_set_nth_lt by lia. rewrite Hf. now apply set_nth_upd. }
     split; [|intros _; exact H1].
-    intros [|k]; [cbn; now apply (rep_dirok d s)|].
-    rewrite firstn_all2 by (cbn [length]; lia). now apply (rep_dirok _ s2).
+    intros [|k]; [cbn; now apply (rep_dirok c d s)|].
+    rewrite firstn_all2 by (cbn [length]; lia). now apply (rep_dirok c _ s2).
   - (* end_trial *)
     pose proof (inv_end score_fn hook_end hook_end_abort c s id es f Hab HI) as HI'. unfold do_end in Es, HI'.
     destruct (existsb (fun kv => snd kv =? id) (ongoing s)) eqn:Eex; cbn [negb] in Es, HI'.
@@ -383,15 +415,20 @@ Proof.
     { rewrite (I_disk_len _ HI). apply nth_error_Some. congruence. }
     assert (Hds : forall x : dtrial, nth_error (upd id (fun _ => x) (disk s)) id = Some x).
     { intros x. rewrite nth_upd_same. destruct (nth_error (disk s) id) eqn:E; [reflexivity|apply nth_error_None in E; lia]. }
-    assert (Hfin : forall (s1 : ost) (dt : dtrial) (abort : bool), Inv s1 ->
+    assert (Hfin : forall (s1 : ost) (dt : dtrial) (abort : bool), Inv s1 -> RInv c s1 ->
               length (trials s1) = length (trials s) -> disk s1 = upd id (fun _ => dt) (disk s) ->
               ongoing s1 = remove_first_by_id id (ongoing s) -> dgood dt ->
               let r1 := if abort then RAbort else RNone in
-              (forall k, DirOK (foldw (firstn k (writes_of s (End id es f) s1 r1)) d)) /\
+              (forall k, DirOK (max_retries c) (foldw (firstn k (writes_of s (End id es f) s1 r1)) d)) /\
               (r1 <> RAbort -> Rep (foldw (writes_of s (End id es f) s1 r1) d) s1)).
-    { intros s1 dt abort HI1 Hl1 Hd1 Ho1 Hg r1.
+    { intros s1 dt abort HI1 HRI1 Hl1 Hd1 Ho1 Hg r1.
       assert (Hsub : forall x, In x (onids s1) -> In x (onids s)). { intros x. unfold onids. rewrite Ho1. apply rfb_snd_in. }
-      destruct (end_block d s s1 id dt HI HR Eex HI1 Hl1 Hd1 Hsub Hg) as [Hk H4].
+      assert (Hsup : forall x, In x (onids s) -> In x (onids s1) \/ In x (retryq s1) \/ finalat s1 x).
+      { intros x Hx. destruct (Nat.eq_dec x id) as [->|Hne].
+        - assert (Hlt1 : id < length (trials s1)). { rewrite Hl1. apply nth_error_Some. congruence. }
+          apply (I_cover _ HI1 id Hlt1).
+        - left. unfold onids. rewrite Ho1. now apply rfb_snd_keeps. }
+      destruct (end_block c d s s1 id dt HI HRI HR Eex HI1 HRI1 Hl1 Hd1 Hsub Hsup Hg) as [Hk H4].
       destruct abort; subst r1; cbn [writes_of]; rewrite Hd1, Hds.
       - split; [|congruence]. intros k.
         replace (firstn k [WTrial id dt; WOracle (to_json (with_ongoing s1 (ongoing s)))])
@@ -405,8 +442,8 @@ Proof.
     | context [if streak ?a ?b ?d ?e then _ else _] => destruct (streak a b d e)
     end; cbn [fst] in HI'; inversion Es; subst s' r.
     all: match goal with
-         | |- _ /\ (RAbort <> RAbort -> _) => eapply (Hfin _ _ true HI'); cbn [trials disk ongoing to_disk d_status d_score t_status t_score]
-         | |- _ => eapply (Hfin _ _ false HI'); cbn [trials disk ongoing to_disk d_status d_score t_status t_score]
+         | |- _ /\ (RAbort <> RAbort -> _) => eapply (Hfin _ _ true HI' HRI'); cbn [trials disk ongoing to_disk d_status d_score t_status t_score]
+         | |- _ => eapply (Hfin _ _ false HI' HRI'); cbn [trials disk ongoing to_disk d_status d_score t_status t_score]
          end.
     all: try (now rewrite length_upd); try reflexivity.
     all: unfold dgood; cbn [d_status d_score]; split; [|intros; try discriminate; eauto].
@@ -437,16 +474,18 @@ Notation all_writesf := (all_writes vdef score_fn populate hook_end hook_end_abo
 
 (* EVERY PREFIX OF THE WRITES OF A RUNNING SEARCH LEAVES A DIRECTORY SATISFYING DirOK *)
 Theorem all_prefix_dirok c : abort_early c = false -> forall ops (s : ost) (d : dstate) k,
-  no_reload ops = true -> Inv s -> Rep d s -> DirOK (foldw (firstn k (all_writesf c s ops)) d).
+  no_reload ops = true -> Inv s -> RInv c s -> Rep d s -> DirOK (max_retries c) (foldw (firstn k (all_writesf c s ops)) d).
 Proof.
-  intros Hab. induction ops as [|o rest IH]; intros s d k Hnr HI HR.
-  - cbn. rewrite firstn_nil. cbn. now apply (rep_dirok d s).
+  intros Hab. induction ops as [|o rest IH]; intros s d k Hnr HI HRI HR.
+  - cbn. rewrite firstn_nil. cbn. now apply (rep_dirok c d s).
   - cbn [all_writes]. destruct (stepf c s o) as [s' r] eqn:Es.
     cbn in Hnr. apply andb_true_iff in Hnr as [Ho Hrest]. apply negb_true_iff in Ho.
-    destruct (block_spec c d s s' o r Hab HI HR Es Ho) as [Hk Hfull].
+    destruct (block_spec c d s s' o r Hab HI HRI HR Es Ho) as [Hk Hfull].
     assert (HI' : Inv s'). { pose proof (inv_step c s o Hab HI) as H. now rewrite Es in H. }
+    assert (HRI' : RInv c s').
+    { pose proof (rinv_step vdef score_fn populate hook_end hook_end_abort hook_reload reissue c s o Hab HI HRI) as H. now rewrite Es in H. }
     rewrite fold_prefix_app. destruct (k <=? length (writes_of s o s' r)); [apply Hk|].
-    destruct r; try (apply IH; [exact Hrest|exact HI'|apply Hfull; discriminate]).
+    destruct r; try (apply IH; [exact Hrest|exact HI'|exact HRI'|apply Hfull; discriminate]).
     rewrite firstn_nil. cbn [fold_left]. specialize (Hk (length (writes_of s o s' RAbort))). now rewrite firstn_all in Hk.
 Qed.
 
@@ -460,21 +499,22 @@ Proof. intros [H _]. unfold recover. now rewrite H. Qed.
    then runs the loop *)
 Theorem first_run_prefix c (a0 : A) ops (d0 : dstate) k : abort_early c = false -> no_reload ops = true -> fresh_dir d0 ->
   let d := foldw (firstn k ([WOracle (to_json (init a0 : ost)); WTuner] ++ all_writesf c (init a0) ops)) d0 in
-  fresh_dir d \/ DirOK d.
+  fresh_dir d \/ DirOK (max_retries c) d.
 Proof.
   intros Hab Hnr [Hf1 Hf2] d. subst d. destruct k as [|[|k]].
   - left. cbn. split; assumption.
   - left. cbn. split; assumption.
-  - right. cbn [app firstn fold_left]. apply all_prefix_dirok; auto; [apply (inv_init vdef score_fn populate hook_end hook_end_abort hook_reload reissue)|].
+  - right. cbn [app firstn fold_left]. apply all_prefix_dirok; auto; [apply (inv_init vdef score_fn populate hook_end hook_end_abort hook_reload reissue)| |].
+    { constructor; intros [|x] t H; discriminate. }
     split; [reflexivity|]. split; [eexists; split; [reflexivity|repeat split]|]. reflexivity.
 Qed.
 
 (* a search that reloaded state t from directory d0 *)
 Theorem resumed_run_prefix c (d0 : dstate) (t : ost) ops k : abort_early c = false -> no_reload ops = true ->
-  DirOK d0 -> recoverf d0 = Some t ->
-  DirOK (foldw (firstn k ([WOracle (to_json t); WTuner] ++ all_writesf c t ops)) d0).
+  DirOK (max_retries c) d0 -> recoverf d0 = Some t ->
+  DirOK (max_retries c) (foldw (firstn k ([WOracle (to_json t); WTuner] ++ all_writesf c t ops)) d0).
 Proof.
-  intros Hab Hnr HD Hr. destruct (recover_inv d0 HD) as (t' & Hr' & HI & Hog). rewrite Hr in Hr'. inversion Hr'; subst t'.
+  intros Hab Hnr HD Hr. destruct (recover_inv c d0 HD) as (t' & Hr' & HI & HRI & Hog). rewrite Hr in Hr'. inversion Hr'; subst t'.
   destruct k as [|k]; [exact HD|].
   pose proof HD as (Ht & j & Ho & Hlen & HJ).
   assert (Hrep : forall tun, tun = true -> Rep {| ds_trials := ds_trials d0; ds_oracle := Some (to_json t); ds_tuner := tun |} t).
@@ -482,7 +522,7 @@ Proof.
     unfold recover in Hr. rewrite Ht, Ho in Hr. cbn [negb] in Hr. inversion Hr as [Et]. cbn [trials disk ds_trials].
     rewrite mapi_length, firstn_length, Nat.min_l by exact Hlen. reflexivity. }
   destruct k as [|k].
-  - cbn. apply (rep_dirok _ t HI). now apply Hrep.
+  - cbn. apply (rep_dirok c _ t HI HRI). now apply Hrep.
   - cbn [app firstn fold_left]. apply all_prefix_dirok; auto. cbn. now apply Hrep.
 Qed.
 
@@ -494,12 +534,12 @@ Inductive reachable_dir (c : cfg) (a0 : A) : dstate -> Prop :=
     reachable_dir c a0 (foldw (firstn k ([WOracle (to_json t); WTuner] ++ all_writesf c t ops)) d).
 
 (* ANY NUMBER OF CRASHES, EACH AT ANY POINT *)
-Theorem reachable_dir_ok c a0 (d : dstate) : abort_early c = false -> reachable_dir c a0 d -> fresh_dir d \/ DirOK d.
+Theorem reachable_dir_ok c a0 (d : dstate) : abort_early c = false -> reachable_dir c a0 d -> fresh_dir d \/ DirOK (max_retries c) d.
 Proof.
   intros Hab H. induction H as [|d ops k H IH Hr Hnr|d t ops k H IH Hr Hnr].
   - left. split; reflexivity.
   - destruct IH as [IH|IH]; [now apply first_run_prefix|].
-    destruct (recover_inv d IH) as (t & Hr' & _). congruence.
+    destruct (recover_inv c d IH) as (t & Hr' & _). congruence.
   - destruct IH as [IH|IH]; [rewrite (recover_fresh d IH) in Hr; discriminate|].
     right. now apply resumed_run_prefix.
 Qed.
@@ -507,30 +547,30 @@ Qed.
 Theorem crash_any_point c a0 (d : dstate) : abort_early c = false -> reachable_dir c a0 d ->
   match recoverf d with
   | None => fresh_dir d                          (* no tuner file yet: the restart begins a new search *)
-  | Some t => Inv t /\ ongoing t = []            (* consistent, nothing left RUNNING: every trial has ended or is queued *)
+  | Some t => Inv t /\ RInv c t /\ ongoing t = []     (* consistent, nothing left RUNNING: every trial has ended or is queued *)
   end.
 Proof.
   intros Hab H. destruct (reachable_dir_ok c a0 d Hab H) as [Hf|Hd].
   - now rewrite (recover_fresh d Hf).
-  - destruct (recover_inv d Hd) as (t & Hr & HI & Ho). rewrite Hr. auto.
+  - destruct (recover_inv c d Hd) as (t & Hr & HI & HRI & Ho). rewrite Hr. auto.
 Qed.
 
 (* the first search, crashed after k writes (Crash.crash_at) *)
 Corollary crash_at_ok c a0 ops k : abort_early c = false -> no_reload ops = true ->
   match crash_at vdef score_fn populate hook_end hook_end_abort hook_reload reissue c a0 ops k with
   | None => k < 2
-  | Some t => 2 <= k /\ Inv t /\ ongoing t = []
+  | Some t => 2 <= k /\ Inv t /\ RInv c t /\ ongoing t = []
   end.
 Proof.
   intros Hab Hnr. unfold crash_at, crash_image, search_writes.
   destruct k as [|[|k]]; [cbn; lia|cbn; lia|].
-  assert (HD : DirOK (foldw (firstn (S (S k)) ([WOracle (to_json (init a0 : ost)); WTuner] ++ all_writesf c (init a0) ops)) empty_dir)).
+  assert (HD : DirOK (max_retries c) (foldw (firstn (S (S k)) ([WOracle (to_json (init a0 : ost)); WTuner] ++ all_writesf c (init a0) ops)) empty_dir)).
   { destruct (first_run_prefix c a0 ops empty_dir (S (S k)) Hab Hnr) as [[H _]|H]; [split; reflexivity| |exact H].
     cbn [app firstn fold_left] in H. exfalso. revert H. generalize (firstn k (all_writesf c (init a0) ops)).
     assert (Hg : forall (l : list (@write A V Sc)) (d : dstate), ds_tuner d = true -> ds_tuner (foldw l d) = true).
     { induction l as [|w l IHl]; intros d Hd; [exact Hd|]. cbn [fold_left]. apply IHl. destruct w; cbn; auto. }
     intros l H. rewrite Hg in H; [discriminate|reflexivity]. }
-  destruct (recover_inv _ HD) as (t & Hr & HI & Ho). rewrite Hr. split; [lia|]. split; assumption.
+  destruct (recover_inv c _ HD) as (t & Hr & HI & HRI & Ho). rewrite Hr. split; [lia|]. split; [assumption|]. split; assumption.
 Qed.
 
 (* ---- the budget survives: no oracle.json ever lists more than max_trials started trials -------------------------- *)
@@ -580,7 +620,7 @@ Proof.
     + eapply (all_writes_bud c n Hab Hn ops (init a0)); eauto; [apply (inv_init vdef score_fn populate hook_end hook_end_abort hook_reload reissue)|cbn; lia].
   - assert (Ht : Inv t /\ length (trials t) <= n).
     { destruct (reachable_dir_ok c a0 d Hab H) as [Hf|Hd]; [rewrite (recover_fresh d Hf) in Hr; discriminate|].
-      destruct (recover_inv d Hd) as (t' & Hr' & HI & _). rewrite Hr in Hr'. inversion Hr'; subst t'. split; [exact HI|].
+      destruct (recover_inv c d Hd) as (t' & Hr' & HI & _). rewrite Hr in Hr'. inversion Hr'; subst t'. split; [exact HI|].
       destruct Hd as (Htu & j & Ho & Hlen & HJ). unfold recover in Hr. rewrite Htu, Ho in Hr. cbn [negb] in Hr. inversion Hr. cbn [trials].
       rewrite mapi_length, firstn_length, Nat.min_l by exact Hlen. now apply IH. }
     destruct Ht as [HI Hle].
